@@ -6,7 +6,7 @@ MODELS = ['features/plume', 'features/plume_models/temperature/gaussian', 'featu
 TUS = ['c12.cc'] + T1[1:] + MODELS
 ST = ['Parameters API replaced by a stub delivering lists of the stated lengths and arbitrary values (JSON layer outside)', 'Interface::get_coordinates, add_vector_unique, get_unique_pointers stubbed (no sub-models)']
 def ob(id, entry, cases, expect, bounds, mode='fpa', **kw):
-    d = dict(id=id, harness='c12.cc', entry=entry, mode=mode, cases=cases, expect=expect, bounds=bounds, tus=TUS, stubs=ST, native=False, allow_throw=True,
+    d = dict(id=id, harness='c12.cc', entry=entry, mode=mode, cases=cases, expect=expect, bounds=bounds, tus=TUS, stubs=ST, native=True, allow_throw=True,
              assumes=['values arbitrary doubles; every memory access of parse_entries and of one subsequent query is checked by the executor'],
              outside=['byte-level / JSON-level parsing, schema validation, formatting variants (rapidjson + std::string code: not encodable, DESIGN.md 4/C12)'])
     d.update(kw); return d
